@@ -6,6 +6,7 @@ import (
 	"fmt"
 	"os"
 	"path/filepath"
+	"strings"
 	"sync"
 	"testing"
 
@@ -35,6 +36,10 @@ type C12Case struct {
 	MissingDir int        `json:"missing_dir"` // -1: all four directories exist
 	Nested     [8]bool    `json:"nested"`      // candidate k of class c (index 4*c+k) lives in a nested sub-directory
 	Others     []int      `json:"others"`      // directories that also hold a valid config of some other device
+	// Resave: after the first load every candidate file is saved again in place (same path, same length, other content:
+	// the mapping name in capitals) and everything is loaded again, as after a change notification. 2: the file that was
+	// served is made invalid by that edit (same length), so the next one in the order has to be served.
+	Resave int `json:"resave,omitempty"`
 }
 
 func c12Config(tag string, id [4]uint16) string {
@@ -98,30 +103,8 @@ func c12Setup(c *C12Case) (string, error) {
 		}
 		return os.WriteFile(p, data, 0o644)
 	}
-	zero := [4]uint16{}
-	for class, present := range [][4]bool{c.Kbd, c.Pad} { // class 0 keyboard, 1 gamepad
-		cls := []string{"kbd", "pad"}[class]
-		for k := 0; k < 4; k++ {
-			if !present[k] {
-				continue
-			}
-			dir := class // user/<class>
-			if k >= 2 {
-				dir = 2 + class // factory/<class>
-			}
-			id := c.ID
-			name := fmt.Sprintf("device_%s.toml", c12Tags[k])
-			if k%2 == 1 {
-				id = zero
-				name = "0_default.toml"
-			}
-			if c.Nested[4*class+k] {
-				name = filepath.Join("by-room", "office", name)
-			}
-			if err := write(dir, name, []byte(c12Config(cls+"-"+c12Tags[k], id))); err != nil {
-				return root, err
-			}
-		}
+	if err := c12WriteCandidates(c, write, false, -1, -1); err != nil {
+		return root, err
 	}
 	for i, dir := range c.Others {
 		other := [4]uint16{0x7777, uint16(i + 1), 0x1, 0x1}
@@ -149,6 +132,45 @@ func c12Setup(c *C12Case) (string, error) {
 	return root, nil
 }
 
+// c12WriteCandidates writes the (up to) eight candidate files. upper: the mapping names in capitals (a second version of
+// the same length); (brokenClass, brokenK): that file gets an unsupported collision mode, again without changing its length.
+func c12WriteCandidates(c *C12Case, write func(dir int, name string, data []byte) error, upper bool, brokenClass, brokenK int) error {
+	zero := [4]uint16{}
+	for class, present := range [][4]bool{c.Kbd, c.Pad} { // class 0 keyboard, 1 gamepad
+		cls := []string{"kbd", "pad"}[class]
+		for k := 0; k < 4; k++ {
+			if !present[k] {
+				continue
+			}
+			dir := class // user/<class>
+			if k >= 2 {
+				dir = 2 + class // factory/<class>
+			}
+			id := c.ID
+			name := fmt.Sprintf("device_%s.toml", c12Tags[k])
+			if k%2 == 1 {
+				id = zero
+				name = "0_default.toml"
+			}
+			if c.Nested[4*class+k] {
+				name = filepath.Join("by-room", "office", name)
+			}
+			tag := cls + "-" + c12Tags[k]
+			if upper {
+				tag = strings.ToUpper(tag)
+			}
+			text := c12Config(tag, id)
+			if class == brokenClass && k == brokenK {
+				text = strings.Replace(text, `collision_mode = "interrupt"`, `collision_mode = "interrupT"`, 1)
+			}
+			if err := write(dir, name, []byte(text)); err != nil {
+				return err
+			}
+		}
+	}
+	return nil
+}
+
 func checkC12(c C12Case) (bool, *Violation) {
 	root, err := c12Setup(&c)
 	defer func() {
@@ -160,8 +182,13 @@ func checkC12(c C12Case) (bool, *Violation) {
 		return false, violation("C12", "harness", "", "cannot build the fixture: %v", err)
 	}
 	var v *Violation
-	herr := inDir(root, func() {
-		v = guard("C12", "panic", func() *Violation {
+	served := -1
+	evaluate := func(upper bool, brokenClass, brokenK int) *Violation {
+		gen := ""
+		if upper {
+			gen = "/after-resave"
+		}
+		return guard("C12", "panic", func() *Violation {
 			var wg sync.WaitGroup
 			cfgs, lerr := config.LoadDeviceConfigs(context.Background(), &wg)
 			if c.MissingDir >= 0 {
@@ -180,8 +207,14 @@ func checkC12(c C12Case) (bool, *Violation) {
 			switch input.DeviceType(c.DevType) {
 			case input.KeyboardDevice:
 				present, cls, dirBase = c.Kbd, "kbd", 0
+				if brokenClass == 0 {
+					present[brokenK] = false // invalid now: reported and skipped
+				}
 			case input.JoystickDevice:
 				present, cls, dirBase = c.Pad, "pad", 1
+				if brokenClass == 1 {
+					present[brokenK] = false
+				}
 			default:
 				classify("unsupported device type")
 				if ferr == nil {
@@ -220,13 +253,17 @@ func checkC12(c C12Case) (bool, *Violation) {
 			if ferr != nil {
 				return violation("C12", "candidate-not-served", c12Tags[want], "expected the %s file (present=%v, id match=%v) but FindConfig failed: %v", c12Tags[want], present, match, ferr)
 			}
+			served = want
 			wantTag := cls + "-" + c12Tags[want]
+			if upper {
+				wantTag = strings.ToUpper(wantTag)
+			}
 			wantType := "user"
 			if want >= 2 {
 				wantType = "factory"
 			}
 			if firstMappingName(&got) != wantTag || got.ConfigType != wantType {
-				return violation("C12", "wrong-precedence", c12Tags[want], "expected the %s %s file (present=%v, id match=%v, class %s); got %q of type %q with mapping %q",
+				return violation("C12", "wrong-precedence", c12Tags[want]+gen, "expected the %s %s file (present=%v, id match=%v, class %s); got %q of type %q with mapping %q",
 					wantType, c12Tags[want], present, match, cls, got.ConfigFile, got.ConfigType, firstMappingName(&got))
 			}
 			wantFile := fmt.Sprintf("device_%s.toml", c12Tags[want])
@@ -238,6 +275,38 @@ func checkC12(c C12Case) (bool, *Violation) {
 			}
 			return nil
 		})
+	}
+	herr := inDir(root, func() {
+		v = evaluate(false, -1, -1)
+		if v != nil || c.Resave == 0 {
+			return
+		}
+		// every candidate is saved again in place, then everything is loaded again
+		write := func(dir int, name string, data []byte) error {
+			if dir == c.MissingDir {
+				return nil
+			}
+			return os.WriteFile(filepath.Join(root, c12Dirs[dir], name), data, 0o644)
+		}
+		brokenClass, brokenK := -1, -1
+		if c.Resave == 2 && served >= 0 {
+			brokenK = served
+			if input.DeviceType(c.DevType) == input.JoystickDevice {
+				brokenClass = 1
+			} else {
+				brokenClass = 0
+			}
+		}
+		if err := c12WriteCandidates(&c, write, true, brokenClass, brokenK); err != nil {
+			v = violation("C12", "harness", "", "cannot rewrite the fixture: %v", err)
+			return
+		}
+		classify("candidates saved again in place and reloaded")
+		classifyIf(brokenK >= 0, "the served file became invalid by the edit")
+		v = evaluate(true, brokenClass, brokenK)
+		if v != nil {
+			v.Message = "after every candidate file was saved again in place (same length) and the configurations were loaded again: " + v.Message
+		}
 	})
 	if herr != nil {
 		return false, violation("C12", "harness", "", "chdir: %v", herr)
@@ -311,6 +380,9 @@ func genC12(t *rapid.T) C12Case {
 	if rapid.IntRange(0, 4).Draw(t, "missing") == 0 {
 		c.MissingDir = rapid.IntRange(0, 3).Draw(t, "missingDir")
 	}
+	if c.MissingDir < 0 {
+		c.Resave = rapid.SampledFrom([]int{0, 0, 0, 1, 2}).Draw(t, "resave")
+	}
 	return c
 }
 
@@ -331,7 +403,7 @@ func TestC12Matrix(t *testing.T) {
 					if idx%r.Shards != r.Shard {
 						continue
 					}
-					c := C12Case{MissingDir: -1, ID: [4]uint16{3, 0x46d, 0xc31c, 0x110}, DevType: dt}
+					c := C12Case{MissingDir: -1, ID: [4]uint16{3, 0x46d, 0xc31c, 0x110}, DevType: dt, Resave: idx % 3}
 					for k := 0; k < 4; k++ {
 						c.Kbd[k] = kb&(1<<k) != 0
 						c.Pad[k] = pd&(1<<k) != 0
